@@ -269,6 +269,33 @@ func runC20(seed int64, tier string, sc *Script) map[string]any {
 				evals++
 			}
 		}
+		// the same for manifest kinds that are not OCI ones (Docker v2 manifest and list): the
+		// reference is the reference, whatever the media type
+		for _, mt := range []string{"application/vnd.docker.distribution.manifest.v2+json", "application/vnd.docker.distribution.manifest.list.v2+json"} {
+			ddesc := ocispec.Descriptor{MediaType: mt, Digest: mdesc.Digest, Size: mdesc.Size}
+			rec.desc = ddesc
+			for _, in := range []string{"v1", "h:5/a/b:v1", "v1@" + mdesc.Digest.String(), mdesc.Digest.String(), "latest", "h:5/a/b@" + mdesc.Digest.String()} {
+				for _, kind := range []string{"pushref", "tag"} {
+					rec.reqs = nil
+					var err error
+					if kind == "pushref" {
+						err = opRepo.PushReference(ctx, ddesc, bytes.NewReader(mbytes), in)
+					} else {
+						err = opRepo.Tag(ctx, ddesc, in)
+					}
+					ans := "err"
+					if len(rec.reqs) > 0 {
+						ans = strings.Join(rec.reqs, " ")
+					} else if err == nil {
+						ans = "no-request"
+					}
+					sc.Op(ans, "ref req kind=%s regok=%s base=%s dg=%s s=%s", kind, regOK(in), base, mdesc.Digest, in)
+					evals++
+				}
+			}
+			sc.Count("ref-req:" + mt)
+		}
+		rec.desc = mdesc
 	}
 	// a repository whose registry has letters in both cases and dots
 	repo2, err := remote.NewRepository("Reg.Example.io/team/app")
